@@ -244,6 +244,20 @@ def run_shard(ctx):
   for i, (tag, lines) in enumerate(SNIPPETS):
     if i % ctx.nshards == ctx.shard:
       check_program(ctx, "x0 = 1\n" + "\n".join(lines) + "\ny0 = 's'\n", [tag])
+  # the same snippets below a first line that has errors of its own (a
+  # directive on line 1 must not reach errors that are reported elsewhere,
+  # e.g. those found while evaluating string annotations)
+  firsts = ["undefined_l1", "_l1 = (0).first + undefined_l1"]
+  k = 0
+  for tag, lines in SNIPPETS:
+    if not tag.startswith(("fwdref", "annassign", "badreturn", "wrongarg",
+                           "nameerror", "decorator-line", "implicit")):
+      continue
+    for first in firsts:
+      k += 1
+      if k % ctx.nshards == ctx.shard:
+        check_program(ctx, first + "\n" + "\n".join(lines) + "\ny0 = 's'\n",
+                      [tag, "first-line-error"])
 
   @st.composite
   def progs(draw):
